@@ -80,19 +80,20 @@ type Case struct {
 	DAGetDelayMs    int64 `json:"da_get_delay_ms,omitempty"`
 	DAGetFailEvery  int   `json:"da_get_fail_every,omitempty"`
 
-	ChainLen      int    `json:"chain_len,omitempty"`    // full: blocks the proposer made
-	TxBlocks      []bool `json:"tx_blocks,omitempty"`    // full: which of them carry transactions (index 0 = first block, always empty)
-	Delivery      string `json:"delivery,omitempty"`     // full: "both" | "da" | "p2p"
-	P2PEveryMs    int64  `json:"p2p_every_ms,omitempty"` // full: the P2P stores receive one more item every so often
-	Flood         string `json:"flood,omitempty"`        // full: "da-header" | "da-data" | "p2p-header" | "p2p-data": more than 10000 items of that kind
-	StallP2P      bool   `json:"stall_p2p,omitempty"`    // agg: the broadcasters do not return until their context is done
-	hangHits      int32
-	HangCall      string `json:"hang_call,omitempty"`           // this external call does not complete until the context it was given is done
-	BuildIsParent bool   `json:"build_ctx_is_parent,omitempty"` // NewManager / NewReaper get the context Run is later called with (cmd wiring); default: an unrelated one
-	ErrChTaken    bool   `json:"errch_taken,omitempty"`         // the one-slot errCh already holds an error nobody reads (Run has taken the stop branch)
-	TwoWriters    *TwoW  `json:"two_writers,omitempty"`         // the two writers of the data watermark, one store write of one of them held (twowriters_test.go; real time, no loops)
-	StopAtMs      int64  `json:"stop_at_ms"`
-	DeadlineMs    int64  `json:"deadline_ms"`
+	ChainLen       int    `json:"chain_len,omitempty"`    // full: blocks the proposer made
+	TxBlocks       []bool `json:"tx_blocks,omitempty"`    // full: which of them carry transactions (index 0 = first block, always empty)
+	Delivery       string `json:"delivery,omitempty"`     // full: "both" | "da" | "p2p"
+	P2PEveryMs     int64  `json:"p2p_every_ms,omitempty"` // full: the P2P stores receive one more item every so often
+	Flood          string `json:"flood,omitempty"`        // full: "da-header" | "da-data" | "p2p-header" | "p2p-data": more than 10000 items of that kind
+	StallP2P       bool   `json:"stall_p2p,omitempty"`    // agg: the broadcasters do not return until their context is done
+	hangHits       int32
+	HangCall       string `json:"hang_call,omitempty"`           // this external call does not complete until the context it was given is done
+	BuildIsParent  bool   `json:"build_ctx_is_parent,omitempty"` // NewManager / NewReaper get the context Run is later called with (cmd wiring); default: an unrelated one
+	ErrChTaken     bool   `json:"errch_taken,omitempty"`         // the one-slot errCh already holds an error nobody reads (Run has taken the stop branch)
+	RestartAfterMs int64  `json:"restart_after_ms,omitempty"`    // agg: the node first runs this long, is stopped, and a NEW Manager / Reaper on the same store is the node under observation (its start-up wait is `last block time + block time`)
+	TwoWriters     *TwoW  `json:"two_writers,omitempty"`         // the two writers of the data watermark, one store write of one of them held (twowriters_test.go; real time, no loops)
+	StopAtMs       int64  `json:"stop_at_ms"`
+	DeadlineMs     int64  `json:"deadline_ms"`
 }
 
 const chainID = "c13chain"
@@ -322,7 +323,27 @@ func paddingData(from uint64, n int) []*types.Data {
 }
 
 func newNode(ctx context.Context, c *Case, rootDir string) (*node, error) {
+	return newNodeOn(ctx, c, rootDir, nil)
+}
+
+// newNodeOn: prev != nil = a restart of the aggregator prev: new Manager and Reaper on prev's datastore, with prev's
+// key, genesis and collaborators (execution layer, sequencer, DA layer keep their state, as real ones would)
+func newNodeOn(ctx context.Context, c *Case, rootDir string, prev *node) (*node, error) {
 	n := &node{c: c, returned: map[string]time.Time{}, halted: make(chan struct{})}
+	if prev != nil {
+		var err error
+		n.sg, n.gen, n.kv, n.da, n.seq, n.exec = prev.sg, prev.gen, prev.kv, prev.da, prev.seq, prev.exec
+		n.hb, n.db = &bcast[*types.SignedHeader]{c: c, name: "header", block: c.StallP2P}, &bcast[*types.Data]{c: c, name: "data", block: c.StallP2P}
+		n.st = store.New(n.kv)
+		n.m, err = block.NewManager(ctx, n.sg, c.config(rootDir, true), n.gen, n.st, n.exec, n.seq, n.da, quiet(), nil, nil,
+			n.hb, n.db, block.NopMetrics(), 1, 1, block.DefaultManagerOptions())
+		if err != nil {
+			return nil, fmt.Errorf("NewManager (restart): %w", err)
+		}
+		n.reaper = block.NewReaper(ctx, n.exec, n.seq, chainID, ms(c.BlockTimeMs), quiet(), newKV())
+		n.reaper.SetManager(n.m)
+		return n, nil
+	}
 	r := rand.New(rand.NewSource(c.Seed*7919 + int64(c.Idx)))
 	priv, _, err := crypto.GenerateEd25519Key(rndReader{r})
 	if err != nil {
@@ -536,6 +557,8 @@ func find(ps []parked, root string) *parked {
 }
 
 func runCase(t *testing.T, c *Case, rootDir string) (out *caseOut) {
+	wd := startWatchdog(c) // real clock: we are outside the bubble here (watchdog_test.go)
+	defer wd.stop()
 	if c.TwoWriters != nil {
 		return runTwoWriters(t, c, rootDir)
 	}
@@ -555,7 +578,44 @@ func runCase(t *testing.T, c *Case, rootDir string) (out *caseOut) {
 		// own cancellable context from the latter either way
 		buildCtx, endCase := context.WithCancel(context.Background())
 		defer endCase()
-		n, err := newNode(buildCtx, c, rootDir)
+		var prev *node
+		if c.RestartAfterMs > 0 && c.Mode == "agg" {
+			// first run: a fresh node, stopped after RestartAfterMs; it must halt like any other
+			n1, err := newNode(buildCtx, c, rootDir)
+			if err != nil {
+				out.err = err
+				return
+			}
+			p1, stop1 := context.WithCancel(context.Background())
+			go n1.run(p1)
+			time.Sleep(ms(c.RestartAfterMs))
+			synctest.Wait()
+			stop1()
+			select {
+			case <-n1.halted:
+			case <-time.After(ms(c.DeadlineMs)):
+				synctest.Wait()
+				late := snapshotLoops()
+				n1.mu.Lock()
+				for _, root := range n1.roots() {
+					if _, ok := n1.returned[root]; !ok {
+						p := find(late, root)
+						if p == nil {
+							p = &parked{Root: root, Func: root, Kind: "unknown", What: "not parked in /repo/block"}
+						}
+						out.fail(stuckSignature(p), fmt.Sprintf("first run (before the restart): %s had not returned %d ms (virtual) after the stop request: parked in %s [%s] %s %s (%s)", root, c.DeadlineMs, p.Func, p.Kind, p.What, p.Call, p.Pos))
+					}
+				}
+				n1.mu.Unlock()
+				endCase()
+				if !n1.release() {
+					out.neverHalts = true
+				}
+				return
+			}
+			prev = n1
+		}
+		n, err := newNodeOn(buildCtx, c, rootDir, prev)
 		if err != nil {
 			out.err = err
 			return
@@ -569,6 +629,16 @@ func runCase(t *testing.T, c *Case, rootDir string) (out *caseOut) {
 		synctest.Wait()
 		at := snapshotLoops()
 		tStop := time.Now()
+		if strings.HasPrefix(c.Scenario, "startup-wait-") || c.Scenario == "sleep-before-first-block" {
+			if p := find(at, "AggregationLoop"); p == nil || p.Func != "AggregationLoop" {
+				out.fail("scenario-not-reached-startup-wait", "AggregationLoop was not in its start-up wait at the stop instant: the scenario no longer exercises a stop request during that wait")
+			}
+		}
+		if c.StallP2P && c.Scenario != "" {
+			if p := find(at, "AggregationLoop"); p == nil || !(p.Func == "publishBlockInternal" || strings.HasPrefix(p.Call, "bcast.")) {
+				out.fail("scenario-not-reached-broadcast-stalled", "AggregationLoop was not inside the broadcast of a committed block at the stop instant")
+			}
+		}
 		if c.HangCall != "" {
 			// the call never completes before its context is done, so "entered" = "in flight at the stop instant"
 			// (or, when the node stopped itself earlier, at that instant)
@@ -629,28 +699,7 @@ func runCase(t *testing.T, c *Case, rootDir string) (out *caseOut) {
 		n.mu.Unlock()
 		// release whatever is stuck so that the bubble can end: read what nobody reads, let the sleep run out
 		endCase() // calls still in flight on the construction context return now
-		for i := 0; i < 400; i++ {
-			select {
-			case <-n.halted:
-				i = 1 << 30
-				continue
-			default:
-			}
-		drain:
-			for {
-				select {
-				case <-n.errCh:
-				case <-n.m.VerifHeaderInCh():
-				case <-n.m.VerifDataInCh():
-				default:
-					break drain
-				}
-			}
-			time.Sleep(100 * time.Millisecond)
-		}
-		select {
-		case <-n.halted:
-		default:
+		if !n.release() {
 			out.neverHalts = true
 			if len(out.viol) == 0 {
 				out.fail("node-never-halts", "the node did not halt even after the harness drained every channel and waited 40 s")
@@ -666,6 +715,35 @@ func runCase(t *testing.T, c *Case, rootDir string) (out *caseOut) {
 		}
 	})
 	return out
+}
+
+// release: read what nobody reads and let sleeps run out (up to 40 s of virtual time) so that loops stuck in an
+// uncancellable operation can return and the bubble can end; reports whether the node has halted
+func (n *node) release() bool {
+	for i := 0; i < 400; i++ {
+		select {
+		case <-n.halted:
+			return true
+		default:
+		}
+	drain:
+		for {
+			select {
+			case <-n.errCh:
+			case <-n.m.VerifHeaderInCh():
+			case <-n.m.VerifDataInCh():
+			default:
+				break drain
+			}
+		}
+		time.Sleep(100 * time.Millisecond)
+	}
+	select {
+	case <-n.halted:
+		return true
+	default:
+		return false
+	}
 }
 
 // ---- invariants on the halted node (C01 / C06 / C07 for the aggregator, C02 / C07 for the full node) --------
@@ -874,6 +952,11 @@ func genCase(seed int64, idx int) *Case {
 		}
 		c.BuildIsParent = r.Intn(2) == 0
 	}
+	// 10% of the aggregator cases: the observed node is a RESTART on the store of a first run (start-up wait = last
+	// block time + block time)
+	if c.Mode == "agg" && r.Intn(10) == 0 {
+		c.RestartAfterMs = int64(500 + r.Intn(6000))
+	}
 	return c
 }
 
@@ -887,6 +970,12 @@ func scenarios() []*Case {
 	var out []*Case
 	// AggregationLoop / sleep / delay: genesis 4 s in the future, stop after 1 s
 	out = append(out, &Case{Scenario: "sleep-before-first-block", Mode: "agg", InitialHeight: 1, GenesisOffset: 4000, BlockTimeMs: 1000, DABlockTimeMs: 1000, StopAtMs: 1000, DeadlineMs: 2000})
+	out = append(out, &Case{Scenario: "startup-wait-genesis-ahead-lazy", Mode: "agg", Lazy: true, LazyIntervalMs: 1000, InitialHeight: 1, GenesisOffset: 4000, BlockTimeMs: 1000, DABlockTimeMs: 1000, StopAtMs: 1000, DeadlineMs: 2000})
+	// the other branch of the start-up wait (store height >= initial height: last block time + block time): the node
+	// has produced blocks (at 0, 4 and 8 s), is stopped at 8.5 s and started again on the same store; the stop
+	// request arrives 1 s later, 2.5 s before the next block is due
+	out = append(out, &Case{Scenario: "startup-wait-after-restart", Mode: "agg", InitialHeight: 1, GenesisOffset: -5000, BlockTimeMs: 4000, DABlockTimeMs: 1000, TxEveryMs: 150, RestartAfterMs: 8500, StopAtMs: 1000, DeadlineMs: 2000})
+	out = append(out, &Case{Scenario: "startup-wait-after-restart-lazy", Mode: "agg", Lazy: true, LazyIntervalMs: 3000, InitialHeight: 1, GenesisOffset: -5000, BlockTimeMs: 4000, DABlockTimeMs: 1000, TxEveryMs: 150, RestartAfterMs: 8500, StopAtMs: 1000, DeadlineMs: 2000})
 	// AggregationLoop / send / errCh: production fails (execution layer) while the slot of errCh is taken and Run is past its select
 	out = append(out, &Case{Scenario: "aggregation-error-slot-taken", Mode: "agg", InitialHeight: 1, GenesisOffset: -1000, BlockTimeMs: 500, DABlockTimeMs: 1000, TxEveryMs: 150, ExecFailAt: 3, ErrChTaken: true, StopAtMs: 4000, DeadlineMs: 3000})
 	out = append(out, &Case{Scenario: "aggregation-error-slot-taken-lazy", Mode: "agg", Lazy: true, LazyIntervalMs: 1000, InitialHeight: 1, GenesisOffset: -1000, BlockTimeMs: 500, DABlockTimeMs: 1000, TxEveryMs: 150, ExecFailAt: 3, ErrChTaken: true, StopAtMs: 6000, DeadlineMs: 3000})
@@ -894,6 +983,7 @@ func scenarios() []*Case {
 	out = append(out, &Case{Scenario: "aggregation-error-read-by-run", Mode: "agg", InitialHeight: 1, GenesisOffset: -1000, BlockTimeMs: 500, DABlockTimeMs: 1000, TxEveryMs: 150, ExecFailAt: 3, StopAtMs: 4000, DeadlineMs: 3000})
 	// publishBlockInternal / wait / g.Wait: the broadcasters stall until their context is done
 	out = append(out, &Case{Scenario: "broadcast-stalled", Mode: "agg", InitialHeight: 1, GenesisOffset: -1000, BlockTimeMs: 500, DABlockTimeMs: 1000, StallP2P: true, StopAtMs: 3000, DeadlineMs: 3000})
+	out = append(out, &Case{Scenario: "broadcast-stalled-lazy", Mode: "agg", Lazy: true, LazyIntervalMs: 1000, InitialHeight: 1, GenesisOffset: -1000, BlockTimeMs: 500, DABlockTimeMs: 1000, TxEveryMs: 150, StallP2P: true, StopAtMs: 3000, DeadlineMs: 3000})
 	// SyncLoop / send / errCh and DAIncluderLoop / send / errCh: stop while the sync loop is executing a block and the
 	// includer is finalizing one; both calls fail with the cancellation; the second error finds the slot taken
 	s := full("sync-error-second")
@@ -989,6 +1079,7 @@ func shrinkCase(t *testing.T, c *Case, sig, rootDir string) *Case {
 			cur = cand
 		}
 	}
+	try(func(x *Case) { x.RestartAfterMs = 0 })
 	try(func(x *Case) { x.TxEveryMs = 0 })
 	try(func(x *Case) { x.DAFailEvery, x.DAGetFailEvery = 0, 0 })
 	try(func(x *Case) { x.DASubmitDelayMs, x.DAGetDelayMs = 0, 0 })
@@ -1007,6 +1098,8 @@ func shrinkCase(t *testing.T, c *Case, sig, rootDir string) *Case {
 	})
 	return &cur
 }
+
+const ruleText = "the node's loop fan-out as in FullNode.Run (one-slot errCh, five loops per mode, select on errCh / parent context, wg.Wait; compared with node/full.go on every run), real block.Manager / Reaper / store, unmodified loops, in a synctest bubble; the node is constructed with one context and run with another (or, 50% of the in-flight cases, the same, as cmd does), Run derives its own; doubles: execution layer (per-call delay, cancellation lag, may ignore its context, may fail from a height on; in 15% of the cases one external call - any of the 12 the loops make - blocks until the context it was given is done), FIFO sequencer, DA layer (delays, every k-th call fails), broadcasters, P2P stores; aggregator cases (55%): genesis 0..5 s in the past or 0.1..4.1 s in the future, lazy 30%, initial height 1 or 5, pending limit 0/2/5, mempool 0/150/700 ms, DA fast/slow; full-node cases (45%): the proposer's chain of 2..8 blocks made by a real aggregator Manager and submitted with its own code, delivered by DA, P2P or both; stop instant 0, <50 ms or uniform in 0..12 s; verdict 1 s (virtual) after the stop request; plus one fixed scenario per operation the table listed as not cancellable before the repairs (they must now halt) and one 'call in flight at the stop instant' scenario per external call of each loop (16); plus the two writers of the data submission watermark (block production's pending-limit test -> numWaitingData stepping over empty data; one iteration of the data submission loop) called as their loops call them on the real Manager and store, with ONE chosen write of the watermark held in the store wrapper while the other writer runs (5 fixed cases + 1 generated per 12 exploration cases: 0..3 submitted blocks, 1..3 + 1..2 empty / non-empty blocks above the watermark, which writer and which of its writes is held; pending limit = blocks above the watermark), oracle: values written under the watermark key never decrease, recorded = in-memory at rest, a Manager restarted on the same store re-submits nothing the DA layer accepted; plus a pass of the same binary under the race detector (quick: 8 aggregator scenarios with both submission loops in the same DA tick, the two-writers cases, 24 generated cases); non-trivial = at least one block committed; distinct = distinct (mode, lazy, genesis sign, parking positions, stuck positions)"
 
 func TestVerif(t *testing.T) {
 	logging.SetAllLoggers(logging.LevelFatal)
@@ -1061,12 +1154,81 @@ func TestVerif(t *testing.T) {
 	distinct := map[string]bool{}
 	scen := map[string]interface{}{}
 	sigSeen := map[string]int{}
+	slowest := time.Duration(0)
+	curJob := 0
+	// finish: write the Coq cases and result.json for the cases completed so far (end of the run, or the watchdog)
+	finish := func() error {
+		if len(scen) > 0 {
+			res.Extra["part_B_scenarios"] = scen
+		}
+		res.Extra["slowest_case_real_ms"] = slowest.Milliseconds()
+		res.Distinct = len(distinct)
+		res.Rule = ruleText
+		defs := append([]string{}, dt.defs...)
+		sort.Strings(defs)
+		res.Cases = len(cases)
+		header := "From Coq Require Import String NArith List Bool.\nFrom Verif Require Import Model.StopProto gen.BlockPoints Check.StopCheck."
+		path := filepath.Join(e.Out, "cases_C13.v")
+		if err := vgen.WriteCases(path, header, defs, "scase", cases, "mismatches"); err != nil {
+			return err
+		}
+		res.CaseFiles = []string{path}
+		cpath := filepath.Join(e.Out, "cases_C13_conc.v")
+		if err := vgen.WriteCases(cpath, "From Coq Require Import NArith List Bool.\nFrom Verif Require Import Model.Conc Check.ConcCheck.\nOpen Scope N_scope.", nil, "ccase", ccases, "cmismatches"); err != nil {
+			return err
+		}
+		res.CaseFiles = append(res.CaseFiles, cpath)
+		res.Cases += len(ccases)
+		res.Distribution["aggregator-states-checked-against-Conc-invariant"] = len(ccases)
+		fpath := filepath.Join(e.Out, "cases_C13_concfull.v")
+		if err := vgen.WriteCases(fpath, "From Coq Require Import NArith List Bool.\nFrom Verif Require Import Model.Conc Model.ConcFull Check.ConcFullCheck.\nOpen Scope N_scope.", nil, "fcase", fcases, "fmismatches"); err != nil {
+			return err
+		}
+		res.CaseFiles = append(res.CaseFiles, fpath)
+		res.Cases += len(fcases)
+		res.Distribution["full-node-states-checked-against-ConcFull-invariant"] = len(fcases)
+		return res.Write(e.Out)
+	}
+	// the watchdog fired (it holds hang.mu: this goroutine is inside runCase and not touching the state): the case
+	// that does not end is the failing input; nothing after it can run in this process
+	hang.mu.Lock()
+	hang.onHang = func(c *Case, what string) {
+		res.Evaluations++
+		res.Count("case-did-not-finish-in-real-time")
+		res.Violations = append(res.Violations, vgen.Violation{Signature: hangSignature, What: what, Case: curJob, Replay: c})
+		res.Replays[fmt.Sprint(curJob)] = jobs[curJob]
+		res.Extra["watchdog"] = map[string]interface{}{"fired_at_case": curJob, "cases_completed": curJob, "cases_not_run": len(jobs) - curJob - 1, "what": what}
+		fmt.Printf("WATCHDOG: case %d (scenario %q) %s\n", curJob, c.Scenario, what)
+		code := 0
+		if err := finish(); err != nil {
+			fmt.Println("WATCHDOG: could not write the results:", err)
+			code = 3
+		}
+		_ = os.RemoveAll(rootDir)
+		os.Exit(code)
+	}
+	hang.mu.Unlock()
 	for ji, c := range jobs {
 		dir := filepath.Join(rootDir, fmt.Sprintf("case%d", ji))
+		hang.mu.Lock()
+		curJob = ji
+		hang.mu.Unlock()
+		t0 := time.Now()
 		o := runCase(t, c, dir)
 		if o.err != nil {
 			t.Fatalf("harness error (seed %d case %d scenario %q): %v", c.Seed, c.Idx, c.Scenario, o.err)
 		}
+		if d := time.Since(t0); d > slowest {
+			slowest = d
+		}
+		// shrinking re-runs the case (each run under its own watchdog), so it happens before the state is locked
+		shrunk := map[string]*Case{}
+		for _, sig := range o.viol {
+			if c.Scenario == "" && sigSeen[sig] == 0 {
+				shrunk[sig] = shrinkCase(t, c, sig, filepath.Join(rootDir, fmt.Sprintf("shrink%d", ji)))
+			}
+		}
+		hang.mu.Lock()
 		res.Evaluations++
 		res.Count("mode:" + c.Mode)
 		if c.TwoWriters != nil {
@@ -1128,6 +1290,13 @@ func TestVerif(t *testing.T) {
 			if lo.At != nil {
 				a = lo.At.desc()
 				res.Count("parked-at-stop:" + lo.At.Func + "/" + lo.At.Kind)
+				// the only blocking operation of AggregationLoop itself is its start-up wait
+				if lo.Root == "AggregationLoop" && lo.At.Func == "AggregationLoop" {
+					res.Count("stop:during-the-start-up-wait-of-AggregationLoop")
+					if c.RestartAfterMs > 0 {
+						res.Count("stop:during-the-start-up-wait-of-AggregationLoop-after-a-restart")
+					}
+				}
 			}
 			if lo.InCall != "" {
 				res.Count("in-external-call-at-stop:" + lo.InCall)
@@ -1160,8 +1329,8 @@ func TestVerif(t *testing.T) {
 				continue
 			}
 			rp := c
-			if c.Scenario == "" && sigSeen[sig] == 1 {
-				rp = shrinkCase(t, c, sig, filepath.Join(rootDir, fmt.Sprintf("shrink%d", ji)))
+			if sc, ok := shrunk[sig]; ok {
+				rp = sc
 			}
 			res.Violations = append(res.Violations, vgen.Violation{Signature: sig, What: o.what[vi], Case: ji, Replay: rp})
 		}
@@ -1179,6 +1348,7 @@ func TestVerif(t *testing.T) {
 		if len(res.Samples) < 3 && c.Scenario == "" && o.height > 2 && c.StopAtMs > 50 {
 			res.Samples = append(res.Samples, map[string]interface{}{"case": c, "loops": o.loops, "blocks_committed": o.height, "da_included": o.included})
 		}
+		hang.mu.Unlock()
 	}
 	if d := os.Getenv("VERIF_C13_DUMP_SCENARIOS"); d != "" { // maintenance aid: write the scenario cases as replay files
 		for _, c := range append(scenarios(), twoWriterScenarios()...) {
@@ -1189,34 +1359,9 @@ func TestVerif(t *testing.T) {
 	if e.Replay == "" && os.Getenv("VERIF_NO_CORPUS") == "" && os.Getenv("VERIF_C13_RACE_CHILD") == "" {
 		res.Extra["race_detector"] = raceRun(e, rootDir, res, e.Tier != "thorough")
 	}
-	if len(scen) > 0 {
-		res.Extra["part_B_scenarios"] = scen
-	}
-	res.Distinct = len(distinct)
-	res.Rule = "the node's loop fan-out as in FullNode.Run (one-slot errCh, five loops per mode, select on errCh / parent context, wg.Wait; compared with node/full.go on every run), real block.Manager / Reaper / store, unmodified loops, in a synctest bubble; the node is constructed with one context and run with another (or, 50% of the in-flight cases, the same, as cmd does), Run derives its own; doubles: execution layer (per-call delay, cancellation lag, may ignore its context, may fail from a height on; in 15% of the cases one external call - any of the 12 the loops make - blocks until the context it was given is done), FIFO sequencer, DA layer (delays, every k-th call fails), broadcasters, P2P stores; aggregator cases (55%): genesis 0..5 s in the past or 0.1..4.1 s in the future, lazy 30%, initial height 1 or 5, pending limit 0/2/5, mempool 0/150/700 ms, DA fast/slow; full-node cases (45%): the proposer's chain of 2..8 blocks made by a real aggregator Manager and submitted with its own code, delivered by DA, P2P or both; stop instant 0, <50 ms or uniform in 0..12 s; verdict 1 s (virtual) after the stop request; plus one fixed scenario per operation the table listed as not cancellable before the repairs (they must now halt) and one 'call in flight at the stop instant' scenario per external call of each loop (16); plus the two writers of the data submission watermark (block production's pending-limit test -> numWaitingData stepping over empty data; one iteration of the data submission loop) called as their loops call them on the real Manager and store, with ONE chosen write of the watermark held in the store wrapper while the other writer runs (5 fixed cases + 1 generated per 12 exploration cases: 0..3 submitted blocks, 1..3 + 1..2 empty / non-empty blocks above the watermark, which writer and which of its writes is held; pending limit = blocks above the watermark), oracle: values written under the watermark key never decrease, recorded = in-memory at rest, a Manager restarted on the same store re-submits nothing the DA layer accepted; plus a pass of the same binary under the race detector (quick: 8 aggregator scenarios with both submission loops in the same DA tick, the two-writers cases, 24 generated cases); non-trivial = at least one block committed; distinct = distinct (mode, lazy, genesis sign, parking positions, stuck positions)"
-	sort.Strings(dt.defs)
-	res.Cases = len(cases)
-	header := "From Coq Require Import String NArith List Bool.\nFrom Verif Require Import Model.StopProto gen.BlockPoints Check.StopCheck."
-	path := filepath.Join(e.Out, "cases_C13.v")
-	if err := vgen.WriteCases(path, header, dt.defs, "scase", cases, "mismatches"); err != nil {
-		t.Fatal(err)
-	}
-	res.CaseFiles = []string{path}
-	cpath := filepath.Join(e.Out, "cases_C13_conc.v")
-	if err := vgen.WriteCases(cpath, "From Coq Require Import NArith List Bool.\nFrom Verif Require Import Model.Conc Check.ConcCheck.\nOpen Scope N_scope.", nil, "ccase", ccases, "cmismatches"); err != nil {
-		t.Fatal(err)
-	}
-	res.CaseFiles = append(res.CaseFiles, cpath)
-	res.Cases += len(ccases)
-	res.Distribution["aggregator-states-checked-against-Conc-invariant"] = len(ccases)
-	fpath := filepath.Join(e.Out, "cases_C13_concfull.v")
-	if err := vgen.WriteCases(fpath, "From Coq Require Import NArith List Bool.\nFrom Verif Require Import Model.Conc Model.ConcFull Check.ConcFullCheck.\nOpen Scope N_scope.", nil, "fcase", fcases, "fmismatches"); err != nil {
-		t.Fatal(err)
-	}
-	res.CaseFiles = append(res.CaseFiles, fpath)
-	res.Cases += len(fcases)
-	res.Distribution["full-node-states-checked-against-ConcFull-invariant"] = len(fcases)
-	if err := res.Write(e.Out); err != nil {
+	hang.mu.Lock()
+	defer hang.mu.Unlock()
+	if err := finish(); err != nil {
 		t.Fatal(err)
 	}
 }
